@@ -4,4 +4,5 @@ pub mod describe;
 pub mod glib;
 pub mod graphreplay;
 pub mod namesreplay;
+pub mod plugreplay;
 pub mod util;
